@@ -96,7 +96,12 @@ func genC12(rt *rapid.T) core.Scenario {
 		sc.Incs = append(sc.Incs, inc)
 	}
 	if rapid.IntRange(0, 2).Draw(rt, "fault") == 2 {
-		f := &C12Fault{Op: rapid.SampledFrom([]string{"append", "read", "save", "load"}).Draw(rt, "faultOp"), K: rapid.IntRange(0, 8).Draw(rt, "faultK")}
+		opsKinds := []string{"append", "read", "save", "load"}
+		if sc.Store.Kind == "sqlite" {
+			// additionally: the k-th SQL statement that writes the subscription table fails inside the driver
+			opsKinds = append(opsKinds, "sql-save", "sql-save")
+		}
+		f := &C12Fault{Op: rapid.SampledFrom(opsKinds).Draw(rt, "faultOp"), K: rapid.IntRange(0, 8).Draw(rt, "faultK")}
 		if f.Op == "append" || f.Op == "save" {
 			f.Lost = rapid.Bool().Draw(rt, "lostAck")
 		}
@@ -141,6 +146,13 @@ func (sc *C12Scenario) Execute(t *testing.T) *core.Outcome {
 	body := func() {
 		env := newStoreEnv()
 		defer env.Close()
+		sf := &sqlFaults{FailNextAtRow: -1, FailQueryAt: -1, FailCloseAt: -1, Fired: map[string]int{}}
+		if kind == "sqlite" {
+			if sc.Fault != nil && sc.Fault.Op == "sql-save" {
+				sf.FailSubExecAt = sc.Fault.K + 1
+			}
+			defer installFaultySQLite(sf)()
+		}
 		ctx := context.Background()
 		durable := map[string]eventbus.Offset{}
 		ops := 0
@@ -185,6 +197,7 @@ func (sc *C12Scenario) Execute(t *testing.T) *core.Outcome {
 			fc.n, fc.Fired = counts, fired
 			if final {
 				fc.plan = FaultPlan{}
+				sf.FailSubExecAt = 0
 			}
 			fc.OnSave = func(id string, off eventbus.Offset) {
 				durable[id] = off
@@ -283,6 +296,9 @@ func (sc *C12Scenario) Execute(t *testing.T) *core.Outcome {
 			}
 		}
 		shortReads = fired["short-read"]
+		if sf.Fired["sql-subscription-write-fails"] > 0 {
+			faultFired = true
+		}
 		var err error
 		st := memInner
 		if kind != "mem" {
